@@ -101,7 +101,7 @@ def run(O, P):
             continue
         # loops on an (always truthy) observable run until the time limit: their logs are cut at arbitrary points;
         # written .call/.apply on an observable path falls under the property's exemption (path read vs this-argument order)
-        if "while" in code or "for (" in code or ".call(" in code or ".apply(" in code:
+        if "while" in code or "for (" in code or ".call(" in code or ".apply(" in code or "import(" in code:
             continue
         # the catalogue's operand `f()` must be the observable `f`, not a recursive call of the function under test
         code = code.replace("function f(a,b,o,k,r,q,x,y,z,i,arr){", "function F0(a,b,o,k,r,q,x,y,z,i,arr){", 1)
